@@ -65,7 +65,8 @@ def run(ctx):
         ctx.require(len(writes) >= 1, '%s: pipe write not found in the poll loop' % lab)
         nb = {nf(call_args(c)[0]) for s in preceding_statements(lp) for c in walk(s) if c.get('kind') == 'CallExpr' and call_name(c) == 'make_fd_nonblocking'}
         for i, w in enumerate(writes):
-            fd = nf(call_args(w)[0])
+            from guard import subst_locals as _sl
+            fd = _sl(nf(call_args(w)[0]), w)
             size = call_args(w)[2]
             # the descriptor as registered: run_process writes to pfd.first taken from the poll result of descriptors all made non-blocking
             nonblocking = fd in nb or (fd == 'pfd.first' and {'sp.stdin_fd()', 'sp.stdout_fd()', 'sp.stderr_fd()'} <= nb)
